@@ -51,3 +51,13 @@ claim("C13", E1,
       "jaxpr -> SMT (QF_NRA + axiomatised exp/log/tanh; purified nlsat fallback); shape failures replayed eagerly",
       "DESIGN.md §3 C13")
 NOT_APPLICABLE.pop("C13", None)
+
+claim("C06", E1,
+      "Bounded symbolic check of soft_target_net_update (un-jitted body with symbolic tau in [0,1]; jitted entry with tau in "
+      "{0,0.005,0.25,1}) and hard_target_net_update on every leaf of 8 real module types (MLP, LayerNormMLP, clipped double-Q, "
+      "tanh policy, SALE, SALE policy, SALE critics, encoder policy): target' = tau*online+(1-tau)*target, online unchanged, "
+      "tau=1 hard copy, tau=0 no-op, for all parameter values.",
+      REAL + " Update cadence inside training loops and clone independence are not yet covered by this check.",
+      "jaxpr -> SMT, one equality obligation per parameter leaf (linear/polynomial real arithmetic)",
+      "DESIGN.md §3 C06")
+NOT_APPLICABLE.pop("C06", None)
